@@ -161,6 +161,11 @@ impl log4rs::append::Append for Tagged {
                 perform(&self.ctx, &a);
             }
         }
+        if self.name % 10 == 9 {
+            // an appender that fails: `ConfiguredLogger::log` collects the error, the fan-out goes
+            // on, and the error loop of `Logger::log` runs with the handler of the loaded snapshot
+            return Err(anyhow::anyhow!("appender a{} of configuration {} fails", self.name, self.tag));
+        }
         Ok(())
     }
     fn flush(&self) {}
@@ -482,6 +487,57 @@ fn render_doc(d: &Doc) -> String {
     render_doc_unit(d, " seconds")
 }
 
+/// the same document as JSON (no comments: the nonce is the number of trailing newlines) or TOML;
+/// injective in (kind, tag, rate, nonce) like the YAML rendering
+fn render_doc_fmt(d: &Doc, fmt: char) -> String {
+    match fmt {
+        'j' => {
+            if d.kind == 'y' {
+                return format!("{{\"appenders\": [unclosed {} {:?} {}", d.tag, d.rate, d.nonce);
+            }
+            let mut parts = vec![];
+            if d.kind == 'r' {
+                // (the descriptor's own rate is spelled into the junk so that the rendering stays injective)
+                parts.push(format!("\"refresh_rate\": \"banana {:?}\"", d.rate).replace("Some(", "").replace(')', ""));
+            } else if let Some(r) = d.rate {
+                parts.push(format!("\"refresh_rate\": \"{} seconds\"", r));
+            }
+            if d.kind == 'c' {
+                parts.push("\"bogus_top_level_key\": 1".to_owned());
+            }
+            let broken = if d.kind == 'l' { ", \"broken\": {\"kind\": \"no_such_kind\"}" } else { "" };
+            parts.push(format!("\"appenders\": {{\"t\": {{\"kind\": \"tagged\", \"tag\": {}}}{}}}", d.tag, broken));
+            let apps = if d.kind == 'l' { "[\"t\", \"broken\"]" } else { "[\"t\"]" };
+            parts.push(format!("\"root\": {{\"level\": \"info\", \"appenders\": {}}}", apps));
+            format!("{{{}}}{}", parts.join(", "), "\n".repeat(1 + d.nonce as usize))
+        }
+        't' => {
+            let mut s = format!("# kind={} tag={} rate={:?} nonce={}\n", d.kind, d.tag, d.rate, d.nonce);
+            if d.kind == 'y' {
+                s.push_str("[[[ not toml = = =\n");
+                return s;
+            }
+            if d.kind == 'r' {
+                s.push_str("refresh_rate = \"banana\"\n");
+            } else if let Some(r) = d.rate {
+                s.push_str(&format!("refresh_rate = \"{} seconds\"\n", r));
+            }
+            if d.kind == 'c' {
+                s.push_str("bogus_top_level_key = 1\n");
+            }
+            s.push_str(&format!("[appenders.t]\nkind = \"tagged\"\ntag = {}\n", d.tag));
+            if d.kind == 'l' {
+                s.push_str("[appenders.broken]\nkind = \"no_such_kind\"\n");
+                s.push_str("[root]\nlevel = \"info\"\nappenders = [\"t\", \"broken\"]\n");
+            } else {
+                s.push_str("[root]\nlevel = \"info\"\nappenders = [\"t\"]\n");
+            }
+            s
+        }
+        _ => render_doc(d),
+    }
+}
+
 /// `unit`: " seconds" for the stepped reloader, "ms" for the real reloader thread
 fn render_doc_unit(d: &Doc, unit: &str) -> String {
     let mut s = format!("# kind={} tag={} rate={:?} nonce={}\n", d.kind, d.tag, d.rate, d.nonce);
@@ -604,7 +660,7 @@ struct Layout {
 
 impl Layout {
     fn new(dir: &Path, kind: char, atomic: bool) -> Option<Layout> {
-        if !"fld".contains(kind) {
+        if !"fldjt".contains(kind) {
             return None;
         }
         let l = Layout { kind, dir: dir.to_path_buf(), gen: 0, atomic };
@@ -622,6 +678,8 @@ impl Layout {
     fn path(&self) -> PathBuf {
         match self.kind {
             'd' => self.dir.join("cfg").join("log4rs.yaml"),
+            'j' => self.dir.join("log4rs.json"),
+            't' => self.dir.join("log4rs.toml"),
             _ => self.dir.join("log4rs.yaml"),
         }
     }
@@ -633,6 +691,8 @@ impl Layout {
         match self.kind {
             'l' => self.dir.join(format!("real_{}.yaml", gen)),
             'd' => self.dir.join(format!("data_{}", gen)).join("log4rs.yaml"),
+            'j' => self.dir.join("log4rs.json"),
+            't' => self.dir.join("log4rs.toml"),
             _ => self.dir.join("log4rs.yaml"),
         }
     }
@@ -707,7 +767,7 @@ fn exec_reload(docs: &str, init: &str, steps: &str) -> String {
     // optional 4th component: path kind (default: plain file)
     let pk = match f.get(3) {
         None => 'f',
-        Some(k) if k.len() == 1 && "fld".contains(*k) => k.chars().next().unwrap(),
+        Some(k) if k.len() == 1 && "fldjt".contains(*k) => k.chars().next().unwrap(),
         _ => return "bad-case".to_owned(),
     };
     let (d0, m0, forget) = match (f[0].parse::<usize>(), f[1].parse::<u64>(), f[2]) {
@@ -755,7 +815,7 @@ fn exec_reload(docs: &str, init: &str, steps: &str) -> String {
             None => return "bad-case".to_owned(),
         };
         let path = lay.path();
-        lay.put(render_doc(&docs[d0]).as_bytes(), m0);
+        lay.put(render_doc_fmt(&docs[d0], pk).as_bytes(), m0);
         let mut des = log4rs::config::Deserializers::default();
         des.insert("tagged", RTaggedDeserializer(Arc::new(AtomicUsize::new(0))));
         // the logger starts with an empty configuration; `init_file` would create it from the
@@ -766,7 +826,7 @@ fn exec_reload(docs: &str, init: &str, steps: &str) -> String {
         let logger = log4rs::Logger::new(empty);
         let handle = logger.verif_handle();
         if let Some((d, m)) = init_edit {
-            let bytes = render_doc(&docs[d]).into_bytes();
+            let bytes = render_doc_fmt(&docs[d], pk).into_bytes();
             let target = lay.target();
             log4rs::verif_hooks::set_critical_section_point(Some(Arc::new(move |tag: &str| {
                 if tag.starts_with("init_file:") {
@@ -793,8 +853,8 @@ fn exec_reload(docs: &str, init: &str, steps: &str) -> String {
         let mut out = vec![format!("init:{}:{}:{}", tag0, rate.as_secs(), enc_bool(alive))];
         for st in &sts {
             match st {
-                Step::Write(d, m) => lay.put(render_doc(&docs[*d]).as_bytes(), *m),
-                Step::Repoint(d, m) => lay.repoint(render_doc(&docs[*d]).as_bytes(), *m),
+                Step::Write(d, m) => lay.put(render_doc_fmt(&docs[*d], pk).as_bytes(), *m),
+                Step::Repoint(d, m) => lay.repoint(render_doc_fmt(&docs[*d], pk).as_bytes(), *m),
                 Step::Missing => lay.clear(),
                 Step::Dir(m) => lay.put_dir(*m),
                 Step::NotUtf8(m) => lay.put(&[0x61, 0xff, 0xfe, 0x0a], *m),
@@ -954,6 +1014,19 @@ fn gen_swap_deterministic(emit: &mut dyn FnMut(String)) {
         &[(0, 11, vec![Act::Swap(1)]), (1, 20, vec![Act::Swap(2)]), (2, 34, vec![Act::Swap(3)])],
         &[Act::Log(0, 1), Act::Log(0, 1), Act::Log(0, 1), Act::Log(0, 1), Act::Swap(0), Act::Log(0, 1)],
     ));
+    // failing appenders (names ending in 9) while the swap happens: the error loop runs after a
+    // re-entrant set_config, with every position of the failing appender
+    let errfam = vec![
+        MiniCfg { table: vec![10, 19, 12], root_level: 5, root_apps: vec![10, 19, 12], loggers: vec![(7, 5, vec![19])] },
+        MiniCfg { table: vec![29], root_level: 5, root_apps: vec![29], loggers: vec![] },
+        MiniCfg { table: vec![30, 31], root_level: 5, root_apps: vec![31, 30], loggers: vec![] },
+    ];
+    for app in [10u64, 19, 12] {
+        for k in 1..3usize {
+            emit(swap_case(&errfam, &[(0, app, vec![Act::Swap(k), Act::Log(0, 2)])], &[Act::Log(0, 3), Act::Log(7, 3), Act::Log(0, 3)]));
+        }
+    }
+    emit(swap_case(&errfam, &[(0, 19, vec![Act::Swap(1)]), (1, 29, vec![Act::Swap(0), Act::Log(7, 1)])], &[Act::Log(7, 1), Act::Log(0, 1), Act::Log(0, 1)]));
     // swaps between records only
     emit(swap_case(&fam, &[], &[Act::Log(0, 3), Act::Swap(1), Act::Log(0, 3), Act::Swap(2), Act::Log(7, 2), Act::Swap(3), Act::Log(0, 1), Act::Swap(0), Act::Log(7, 3)]));
     emit(swap_case(&fam, &[], &[Act::Log(0, 3)]));
@@ -987,10 +1060,14 @@ fn gen_stress(rng: &mut Rng, thorough: bool, emit: &mut dyn FnMut(String)) {
             emit(format!("stress\t{}\t{}\t{}\t{}\t0.1,1.3,2.5,7.2", enc(&cfgs), nl, nr, it));
         }
     } else {
-        emit(format!("stress\t{}\t2\t1\t300\t0.3,7.3,7.5", enc(&fam[..2])));
-        emit(format!("stress\t{}\t4\t2\t300\t0.3,7.2", enc(&fam)));
-        let cfgs: Vec<MiniCfg> = (0..2).map(|k| random_cfg(rng, k)).collect();
-        emit(format!("stress\t{}\t3\t1\t300\t0.1,1.3,7.2", enc(&cfgs)));
+        emit(format!("stress\t{}\t2\t1\t2000\t0.3,7.3,7.5", enc(&fam[..2])));
+        emit(format!("stress\t{}\t4\t2\t2000\t0.3,7.2", enc(&fam)));
+        emit(format!("stress\t{}\t8\t3\t2000\t0.3,7.2,7.5", enc(&fam)));
+        emit(format!("stress\t{}\t6\t1\t2000\t0.3,7.3", enc(&fam[..3])));
+        for _ in 0..3 {
+            let cfgs: Vec<MiniCfg> = (0..3).map(|k| random_cfg(rng, k)).collect();
+            emit(format!("stress\t{}\t{}\t{}\t1500\t0.1,1.3,2.5,7.2", enc(&cfgs), rng.range(2, 6), rng.range(1, 3)));
+        }
     }
 }
 
@@ -1028,6 +1105,9 @@ fn gen_reload_deterministic(emit: &mut dyn FnMut(String)) {
         // the file the path resolves to
         emit(format!("reload\t{}\t0:10:0:l\t{}", docs, h));
         emit(format!("reload\t{}\t0:10:0:d\t{}", docs, h));
+        // the same documents as JSON and as TOML (Format::Json / Format::Toml)
+        emit(format!("reload\t{}\t0:10:0:j\t{}", docs, h));
+        emit(format!("reload\t{}\t0:10:0:t\t{}", docs, h));
     }
     // an edit landing INSIDE the initialisation, between its two looks at the file
     for pk in ["f", "l"] {
@@ -1121,7 +1201,7 @@ fn gen_reload_random(rng: &mut Rng, thorough: bool, emit: &mut dyn FnMut(String)
             }
         }
     }
-    let pk = *rng.pick(&["f", "f", "l", "l", "d"]);
+    let pk = *rng.pick(&["f", "f", "l", "l", "d", "j", "t"]);
     if rng.chance(1, 3) {
         // some edits re-point the path instead of rewriting the file in place
         for st in steps.iter_mut() {
@@ -1148,7 +1228,7 @@ fn gen_reload_random(rng: &mut Rng, thorough: bool, emit: &mut dyn FnMut(String)
 
 /// histories for the real reloader thread; refresh rates are milliseconds here
 /// (`/`-separated: the generic shrinker of `check` must not renumber the documents)
-const THREAD_DOCS: &str = "g:1:20:0/g:2:40:0/y:9:-:0/g:3:-:0/g:1:20:1/g:5:3000:0/c:6:20:0/g:7:20:0/r:8:20:0/l:4:40:0";
+const THREAD_DOCS: &str = "g:1:20:0/g:2:40:0/y:9:-:0/g:3:-:0/g:1:20:1/g:5:3000:0/c:6:20:0/g:7:20:0/r:8:20:0/l:4:40:0/g:6:0:0";
 
 fn gen_thread_deterministic(emit: &mut dyn FnMut(String)) {
     // docs: 0 = A(20ms) 1 = B(40ms) 2 = syntax error 3 = C without refresh_rate 4 = A, other text
@@ -1186,6 +1266,8 @@ fn gen_thread_deterministic(emit: &mut dyn FnMut(String)) {
         "0:10:f:p>w:9:11,w:0:12",             // lossy config (reported, applied), then a change
         "0:10:l:p>w:2:11,p:1:12,x,w:7:13",    // both: link + closed stderr
         "0:10:f:p>w:1:11,w:7:12",             // control: nothing to report
+        // refresh_rate 0: the loop polls without sleeping
+        "0:10>w:10:11,w:1:12,w:10:13,w:2:14,w:0:15",
         // an edit landing inside init_file, between its two looks at the file
         "0:10:f:n:e1.11>w:1:11,w:7:12",
         "0:10:l:n:e7.11>w:7:11,w:7:12",
